@@ -7,6 +7,7 @@ row-wise map of the solo step — for any batch size, any instances, any actions
 run of instance `r` on its own actions; the reward is a function of the instance and its own actions.
 There is no post-finish padding in this family (C02: all rows finish at step `n`).
 -/
+import Rl4co.Props.C02.Tsp
 import Rl4co.Env.Tsp
 import Rl4co.Proofs.TspfamParams
 
@@ -132,5 +133,30 @@ theorem batch_row_eq_solo (insts : List Inst) (cols : List (List Nat)) (r : Nat)
 /-- Non-vacuity: two rows, two steps; the flag is `true` at the first and `false` at the second step. -/
 example : (batchExec ([⟨2, fun _ _ => 1⟩, ⟨2, fun _ _ => 1⟩].map (fun i => (i, reset i))) [[1, 0], [0, 1]]).map
     (fun r => (r.2.first, r.2.cur, r.2.i, r.2.done)) = [(1, 0, 2, true), (0, 1, 2, true)] := by decide
+
+/-- **C04/C02 (TSP), `∀ batch, ∀ row`**: in ANY batch of instances of `n` nodes that was reset together and
+stepped with mask-admitted action columns, EVERY row is finished exactly when `n` columns have been played —
+all rows finish at the same step, whatever the batch size, the other instances and the actions are; and the
+state of every row is the solo state (so mask, done flag, first/current node agree with the solo run). -/
+theorem batch_rows_finish_together (n : Nat) (hpos : 0 < n) (insts : List Inst) (cols : List (List Nat))
+    (hn : ∀ i ∈ insts, i.n = n) (hc : ∀ c ∈ cols, c.length = insts.length)
+    (hadm : ∀ r i, insts[r]? = some i → admitted env i (env.reset i) (cols.map (fun c => c.getD r 0)) = true) :
+    ∀ r i, insts[r]? = some i →
+      ∃ s, (batchExec (insts.map (fun i => (i, reset i))) cols)[r]? = some (i, s) ∧
+        s = exec env i (env.reset i) (cols.map (fun c => c.getD r 0)) ∧
+        (s.done = true ↔ cols.length = n) := by
+  intro r i hi
+  have hr : r < insts.length := by
+    rcases Nat.lt_or_ge r insts.length with h | h
+    · exact h
+    · rw [List.getElem?_eq_none h] at hi; cases hi
+  have hrow := batch_row_eq_solo insts cols r i hi (fun c hcm => by rw [hc c hcm]; exact hr)
+  refine ⟨_, hrow, rfl, ?_⟩
+  have hrun : Run env i (env.reset i) (cols.map (fun c => c.getD r 0)) _ :=
+    (run_iff_admitted env i _ _ _).mpr ⟨hadm r i hi, rfl⟩
+  have hin : i.n = n := hn i (List.mem_of_getElem? hi)
+  have := run_length i (by omega) hrun
+  simp only [List.length_map, hin] at this
+  exact this
 
 end Rl4co.Tsp
